@@ -603,6 +603,13 @@ func (p c08) failingWrite(ctx *core.RunCtx, e *c08Entry, v ser, size, k int, kin
 		ctx.Fail("write-fault", cls+"|accepted", "sink failed after %d of %d bytes but WriteTo returned nil (n=%d, %d bytes delivered)", k, size, res.n, len(sink.Buf))
 		return false
 	}
+	// the count returned with the error: everything the sink received went through the writer, so at least
+	// that many bytes were written, and no more than the object has
+	ctx.Count("oracle.sink-failure-count", 1)
+	if res.n < int64(len(sink.Buf)) || res.n > int64(size) {
+		ctx.Fail("write-fault", cls+"|n", "sink failing after %d of %d bytes: WriteTo returned n=%d with its error, but %d bytes had reached the sink (the object has %d)", k, size, res.n, len(sink.Buf), size)
+		return false
+	}
 	return true
 }
 
